@@ -121,6 +121,11 @@ def apply_op(rng, m, op):
         closing = rng.integers(0, 3) == 0
         phi = 360 if closing else float(rng.uniform(20, 300))
         nseg = int(rng.integers(4, 9)) if not closing else int(rng.integers(5, 10))
+        if rng.integers(0, 3) == 0:
+            # explicit (non-uniform) angles, open or ending exactly at 360 degrees
+            inner = np.sort(rng.uniform(10, (350 if closing else phi - 5), nseg - 1))
+            inner = inner[np.concatenate([[True], np.diff(inner) > 8])]
+            return mm.revolve(phi=np.concatenate([[0.0], inner, [360.0 if closing else phi]]), axis=axis)
         return mm.revolve(n=nseg + 1, phi=phi, axis=axis)
     if op == "edges":
         return m.add_midpoints_edges()
@@ -238,6 +243,19 @@ def case_special(name):
                                          "merge: %d points remain, expected %d" % (len(s.points), exp))
                     jit = cc.copy(points=cc.points + 1e-7 * rng.uniform(-1, 1, cc.points.shape))
                     jit.merge_duplicate_points(decimals=4)
+                # joining higher-order blocks: shared mid-edge / mid-face nodes must merge as well
+                for ho in (fem.Rectangle(n=3).add_midpoints_edges(), fem.Rectangle(n=3).add_midpoints_edges().add_midpoints_faces(),
+                           fem.Cube(n=3).add_midpoints_edges(), fem.Cube(n=3).add_midpoints_edges().add_midpoints_faces().add_midpoints_volumes(),
+                           fem.Rectangle(n=3).triangulate().add_midpoints_edges(), fem.Cube(n=2).triangulate().add_midpoints_edges()):
+                    cc = fem.mesh.concatenate([ho, ho.translate(1.0, 0)])
+                    cc = cc.copy(points=cc.points + 1e-9 * rng.uniform(-1, 1, cc.points.shape))
+                    sm = cc.merge_duplicate_points(decimals=6)
+                    exp = len(np.unique(np.round(np.vstack([ho.points, ho.translate(1.0, 0).points]), 6), axis=0))
+                    if len(sm.points) == exp:
+                        run.ok("mesh.merge_duplicate_points", unit="merge:count:higher-order", config=("merge-ho", ho.cell_type))
+                    else:
+                        run.fail("mesh.merge_duplicate_points", "tool=merge_duplicate_points celltype=%s clause=count" % ho.cell_type,
+                                 "merge of two %s blocks: %d points remain, expected %d" % (ho.cell_type, len(sm.points), exp))
                 # coarse tolerances (decimals 0, 1 and -1): grids on multiples of the tolerance with round-off sized noise
                 for dec, h in ((0, 1.0), (1, 0.1), (-1, 10.0), (0, 2.0)):
                     for g in (fem.Rectangle(b=(3 * h, 2 * h), n=(4, 3)), fem.Cube(b=(2 * h, h, h), n=(3, 2, 2))):
@@ -305,7 +323,7 @@ def _required():
         req += [t + ":volume", t + ":orientation"]
     req += ["flip:double", "mirror:reflection", "rotate:isometry", "add_midpoints_edges:centroid", "add_midpoints_faces:centroid",
             "add_midpoints_volumes:centroid", "add_midpoints_edges:layout", "add_midpoints_faces:layout",
-            "add_midpoints_volumes:layout", "convert:layout", "merge:corners", "merge:separation", "merge:count", "merge:count:coarse",
+            "add_midpoints_volumes:layout", "convert:layout", "merge:corners", "merge:separation", "merge:count", "merge:count:coarse", "merge:count:higher-order",
             "container:volume", "fill_between:volume"]
     return req
 
